@@ -190,11 +190,39 @@ class Ctx:
 Part = collections.namedtuple("Part", "name fn arg")
 
 
+def corpus_files(prop):
+    d = os.path.join(VERIF, "corpus", prop)
+    return sorted(os.path.join(d, f) for f in os.listdir(d) if f.endswith(".json")) if os.path.isdir(d) else []
+
+
+def _corpus_part(ctx, mod, rec):
+    """committed regression inputs (past shrunk failures, hand-written boundary cases) are replayed first in every tier"""
+    for path in corpus_files(ctx.prop):
+        with open(path) as f:
+            body = json.load(f)
+        case = body["case"] if isinstance(body, dict) and "case" in body else body
+        rec.case()
+        rec.cls("corpus")
+        try:
+            rec.check(lambda c: mod.replay(ctx, c), case)
+        except Violation as v:
+            if v.case is None:
+                v.case = case
+            rec.violation(v)
+
+
 def _run_part(a):
     modname, ctxd, idx = a
     try:
         mod = importlib.import_module(modname)
         ctx = Ctx(**ctxd)
+        if idx == -1:
+            rec = Recorder(ctx, "corpus")
+            t0 = time.time()
+            _corpus_part(ctx, mod, rec)
+            d = rec.dump()
+            d["wall_s"] = time.time() - t0
+            return d
         part = mod.parts(ctx)[idx]
         rec = Recorder(ctx, part.name)
         t0 = time.time()
@@ -266,6 +294,8 @@ def main(argv=None):
         return 2
     idxs = [i for i, p in enumerate(parts) if not args.only or args.only in p.name]
     jobs = [(modname, ctxd, i) for i in idxs]
+    if corpus_files(prop) and not args.only:
+        jobs.insert(0, (modname, ctxd, -1))
     if args.jobs <= 1 or len(jobs) == 1:
         results = [_run_part(j) for j in jobs]
     else:
